@@ -49,6 +49,14 @@ func propC19(c *Ctx) propInfo {
 	}
 	c.floor(R, 9)
 	c.floor("E8.bounds", 1)
+	// E1: no crash from the entry points that see attacker-supplied proofs
+	roots := c.rootsByName("E1.roots", "tonconnect:Server.CheckProof", "tonconnect:Server.CheckPayload", "tonconnect:ParseStateInit",
+		"tonconnect:convertTonProofMessage", "tonconnect:compareStateInitWithAddress", "tonconnect:createMessage", "tonconnect:signatureVerify")
+	trav := map[string]bool{"tonconnect": true, "ton": true, "wallet": true, "boc": true, "tlb": true, "utils": true}
+	c.panicFree(e1cfg{roots: roots, pkgs: map[string]bool{"tonconnect": true, "ton": true}, traverse: trav, maxDepth: 2, exc: excC19, excP5: map[string]excEntry{}})
+	c.errflow(excC19E2, "tonconnect")
+	c.floor("E1.P2-bounds", 10)
+	c.floor("E2.R-drop", 10)
 	return propInfo{
 		explanation: "Static structural clauses of C19 (DESIGN.md §4 C19): every accepting exit of CheckProof is dominated by the passing edges of payload check, lifetime comparison, domain check, signature verification, and the state-init key extraction is dominated by the state-init/address comparison; CheckPayload accepts only through the constant-time MAC comparison, the expiry comparison and the length check; signed-message byte layout equals the spec; no panic is reachable from the entry points; error discipline in package tonconnect. Decides these necessary conditions, not unforgeability.",
 		assumptions: []string{"ed25519/HMAC/SHA-256 behave as documented", "the clock is not modelled"},
@@ -66,3 +74,8 @@ func fieldLoad(name string) srcPred {
 		return ok && fn == name
 	}
 }
+
+var excC19 = map[string]excEntry{
+	"(*tonconnect.Server).CheckPayload P2 slice hash.Hash.Sum()[:16]": {"Sum(nil) of an HMAC-SHA256 returns exactly 32 bytes (library contract)", nil},
+}
+var excC19E2 = map[string]string{}
